@@ -18,8 +18,12 @@ impl Lst {
     /// `vec.push(..)` while the loop counters are (i, j)
     #[verifier::external_body] pub fn pushed(&mut self, i: usize, j: usize)
         ensures final(self).ok == old(self).of_pair(i, j), final(self).oi == i, final(self).oj == j, !final(self).empty { unimplemented!() }
+    /// `vec.clear()`
+    #[verifier::external_body] pub fn clear(&mut self) ensures final(self).empty, final(self).ok { unimplemented!() }
 }
-#[verifier::external_body] pub fn from_segments_binary(v: &Lst) -> (r: Result<(), SkErr>) { unimplemented!() }
+pub struct Kij { pub x: bool }
+impl Clone for Kij { #[verifier::external_body] fn clone(&self) -> (r: Kij) ensures r == *self { unimplemented!() } }
+#[verifier::external_body] pub fn from_segments_binary(v: &Lst) -> (r: Result<Kij, SkErr>) { unimplemented!() }
 
 //@skeleton feos-core/src/parameter/mod.rs trait:Parameter::from_segments
 //@returns Result<(), SkErr>
@@ -30,6 +34,7 @@ impl Lst {
 //@track vec: Lst
 //@event new free
 //@event from_segments_binary free args=0
+//@event clear
 //@on mutcall vec => vec.pushed(i, j);
 //@on stmt let kij = $..r => assert(vec.of_pair(i, j));
 //@loop 2
